@@ -364,13 +364,22 @@ struct TraceLine {
     op: Option<usize>,
     kind: String,
     path: String,
+    /// second path of a rename / link (empty otherwise)
+    dest: String,
+}
+
+impl TraceLine {
+    /// A file is moved into the trash directory by this call.
+    fn moves_to_trash(&self) -> bool {
+        (self.kind == "rename" || self.kind == "link") && self.dest.starts_with("trash/") && !self.path.starts_with("trash/")
+    }
 }
 
 fn parse_trace(text: &str) -> Vec<TraceLine> {
     text.lines()
         .map(|l| {
             let f: Vec<&str> = l.split('\t').collect();
-            TraceLine { op: f.get(1).and_then(|s| s.parse().ok()), kind: f.get(2).unwrap_or(&"").to_string(), path: f.get(3).unwrap_or(&"").to_string() }
+            TraceLine { op: f.get(1).and_then(|s| s.parse().ok()), kind: f.get(2).unwrap_or(&"").to_string(), path: f.get(3).unwrap_or(&"").to_string(), dest: f.get(4).unwrap_or(&"").to_string() }
         })
         .collect()
 }
@@ -385,7 +394,37 @@ fn class_of(t: &TraceLine, h: &History) -> String {
         Some(op) => driver::op_name(op),
         None => "open",
     };
+    if t.moves_to_trash() {
+        return format!("{during}:{region}->trash:{}", t.kind);
+    }
     format!("{during}:{region}:{}", t.kind)
+}
+
+/// The clean-up windows of a trace: every call of a verifier pass or a reopen, every call that touches
+/// the trash directory, and - since "a log is moved to trash only when no unreplayed write depends on
+/// it" is a statement about what is durable at the moment of the move - every call from a move into
+/// trash up to the end of the API call that made it.
+fn cleanup_points(trace: &[TraceLine], h: &History) -> Vec<bool> {
+    let mut sel = vec![false; trace.len()];
+    let mut in_window: Option<Option<usize>> = None;
+    for (k, t) in trace.iter().enumerate() {
+        if let Some(op) = in_window {
+            if op != t.op {
+                in_window = None;
+            }
+        }
+        let c = class_of(t, h);
+        if c.starts_with("verify:") || c.starts_with("reopen:") || c.contains(":trash:") || c.contains("->trash:") || c.contains(":verify:") {
+            sel[k] = true;
+        }
+        if t.moves_to_trash() {
+            in_window = Some(t.op);
+        }
+        if in_window.is_some() {
+            sel[k] = true;
+        }
+    }
+    sel
 }
 
 #[derive(Clone, Copy, Debug, PartialEq, Eq)]
@@ -784,13 +823,11 @@ impl Part for CrashEnum {
             }
             let n = trace.len();
             // 2. choose crash points
+            let window = cleanup_points(&trace, &history);
             let mut points: Vec<usize> = (0..n)
                 .filter(|k| match self.focus {
                     Focus::All => true,
-                    Focus::CleanUp => {
-                        let c = class_of(&trace[*k], &history);
-                        c.starts_with("verify:") || c.starts_with("reopen:") || c.contains(":trash:") || c.contains(":verify:")
-                    }
+                    Focus::CleanUp => window[*k],
                 })
                 .collect();
             let exhaustive = ctx.tier == Tier::Thorough || points.len() <= self.quick_points;
